@@ -76,19 +76,26 @@ Lookup(c, n) == IF VisIdx(c, n) = 0 THEN Absent ELSE c[VisIdx(c, n)].vars[n]
 GetScoped(c, n, s) == IF VisIdx(c, n) >= ScopeIdx(c, s) /\ VisIdx(c, n) > 0
                       THEN Lookup(c, n) ELSE Absent
 
+\* A variable as a compact string (the harness prints the same):
+\*   "-" no such variable, else ["E" exported]["R" read-only]["=" value]
+VarStr(v) == IF ~v.set THEN "-"
+             ELSE (IF v.ex THEN "E" ELSE "") \o (IF v.ro THEN "R" ELSE "")
+                  \o (IF v.hv THEN "=" \o v.val ELSE "")
+
 \* iter(scope): Global all variables; Local "variables in the topmost regular
 \* context or above"; Volatile "variables above the topmost regular context";
 \* "In all cases, the iterator ignores variables hidden by another."
+\* Listed as "name:variable" in name order.
 IterSeq(c, s) ==
   LET in == SelectSeq(NameSeq, LAMBDA n : GetScoped(c, n, s).set)
-  IN [i \in 1..Len(in) |-> [n |-> in[i], var |-> Lookup(c, in[i])]]
+  IN [i \in 1..Len(in) |-> in[i] \o ":" \o VarStr(Lookup(c, in[i]))]
 
 \* env_c_strings: the exported (visible) variables that have a value, as
-\* name=value.  A hidden exported variable is not part of the environment.
+\* "name=value".  A hidden exported variable is not part of the environment.
 InEnv(c, n) == LET v == Lookup(c, n) IN v.set /\ v.ex /\ v.hv
 EnvSeq(c) ==
   LET in == SelectSeq(NameSeq, LAMBDA n : InEnv(c, n))
-  IN [i \in 1..Len(in) |-> [n |-> in[i], val |-> Lookup(c, in[i]).val]]
+  IN [i \in 1..Len(in) |-> in[i] \o "=" \o Lookup(c, in[i]).val]
 
 \* positional_params: "the positional parameters of the topmost regular context"
 Pos(c) == c[TopReg(c)].pos
@@ -205,19 +212,32 @@ Legal(c, op) == op.op = "pop" => Len(c) > 1
 \* The observable projection (everything the read-only public API exposes),
 \* for the context stack as it is and as it would be after each pop:
 \* level k = what is observable once the contexts above k have been popped.
+\*   k kind of the topmost context, p positional_params(),
+\*   v[i] = <<get, get_scoped Local, get_scoped Volatile>> of the i-th name,
+\*   ig/il/iv = iter(Global/Local/Volatile), e = env_c_strings()
 Level(c) ==
-  [kind |-> c[Len(c)].kind,
-   pos  |-> Pos(c),
-   vars |-> [i \in 1..Len(NameSeq) |->
-               [g |-> Lookup(c, NameSeq[i]),
-                l |-> GetScoped(c, NameSeq[i], "Local"),
-                v |-> GetScoped(c, NameSeq[i], "Volatile")]],
-   ig   |-> IterSeq(c, "Global"),
-   il   |-> IterSeq(c, "Local"),
-   iv   |-> IterSeq(c, "Volatile"),
-   env  |-> EnvSeq(c)]
+  [k  |-> c[Len(c)].kind,
+   p  |-> Pos(c),
+   v  |-> [i \in 1..Len(NameSeq) |->
+             <<VarStr(Lookup(c, NameSeq[i])),
+               VarStr(GetScoped(c, NameSeq[i], "Local")),
+               VarStr(GetScoped(c, NameSeq[i], "Volatile"))>>],
+   ig |-> IterSeq(c, "Global"),
+   il |-> IterSeq(c, "Local"),
+   iv |-> IterSeq(c, "Volatile"),
+   e  |-> EnvSeq(c)]
 
 Project(c) == [k \in 1..Len(c) |-> Level(SubSeq(c, 1, k))]
+
+\* decoding of variable strings (the values a trace may contain: TraceVals)
+VarUniverse(V) == {Absent} \cup [set : {TRUE}, hv : {FALSE}, val : {""}, ex : BOOLEAN, ro : BOOLEAN]
+                           \cup [set : {TRUE}, hv : {TRUE}, val : V, ex : BOOLEAN, ro : BOOLEAN]
+DecodeTable == [s \in {VarStr(v) : v \in VarUniverse(Vals)} |->
+                  CHOOSE v \in VarUniverse(Vals) : VarStr(v) = s]
+\* a string outside the table decodes to a variable that does not print back
+\* to it, so that the observation is judged incoherent (never a tool error)
+Decode(s) == IF s \in DOMAIN DecodeTable THEN DecodeTable[s]
+             ELSE [set |-> TRUE, hv |-> TRUE, val |-> "?" \o s, ex |-> FALSE, ro |-> FALSE]
 
 \* Reconstruction of a model state from an observation.  In a regular context
 \* k the Local scope starts at k, in a volatile context directly above a
@@ -230,22 +250,26 @@ Project(c) == [k \in 1..Len(c) |-> Level(SubSeq(c, 1, k))]
 NameIdx(n) == CHOOSE i \in 1..Len(NameSeq) : NameSeq[i] = n
 Abstract(o) ==
   [k \in 1..Len(o) |->
-     [kind |-> o[k].kind,
-      pos  |-> IF o[k].kind = "R" THEN o[k].pos ELSE <<>>,
+     [kind |-> o[k].k,
+      pos  |-> IF o[k].k = "R" THEN o[k].p ELSE <<>>,
       vars |-> [n \in Names |->
-                 LET e == o[k].vars[NameIdx(n)]
-                     held == IF o[k].kind = "R" THEN e.l.set
-                             ELSE /\ e.v.set
-                                  /\ IF o[k - 1].kind = "R" THEN TRUE
-                                     ELSE LET b == o[k - 1].vars[NameIdx(n)]
-                                          IN ~b.v.set \/ b.g # e.g
-                 IN IF held THEN e.g ELSE Absent]]]
+                 LET e == o[k].v[NameIdx(n)]
+                     held == IF o[k].k = "R" THEN e[2] # "-"
+                             ELSE /\ e[3] # "-"
+                                  /\ IF o[k - 1].k = "R" THEN TRUE
+                                     ELSE LET b == o[k - 1].v[NameIdx(n)]
+                                          IN b[3] = "-" \/ b[1] # e[1]
+                 IN IF held THEN Decode(e[1]) ELSE Absent]]]
 
 \* An observation is coherent iff it is the projection of some model state:
 \* get_scoped agrees with get, iter lists exactly the visible variables of the
 \* scope, the environment is exactly the exported visible variables that have
 \* a value, the base context is regular.
-Coherent(o) == Len(o) >= 1 /\ o[1].kind = "R" /\ Project(Abstract(o)) = o
+Shaped(o) == /\ Len(o) >= 1 /\ o[1].k = "R"
+             /\ \A k \in 1..Len(o) : o[k].k \in {"R", "V"} /\ Len(o[k].v) = Len(NameSeq)
+Coherent(o) == Shaped(o) /\ Project(Abstract(o)) = o
+
+ResStr(r) == [st |-> r.st, ret |-> VarStr(r.ret), old |-> IF r.old.hv THEN "=" \o r.old.val ELSE "-"]
 
 \* One observed call {pre, op, res, post, pn}: the judgement of C16.
 \*  - a documented panic (get_or_new(Volatile) without a volatile context on
@@ -253,11 +277,18 @@ Coherent(o) == Len(o) >= 1 /\ o[1].kind = "R" /\ Project(Abstract(o)) = o
 \*    state afterwards;
 \*  - no other call may panic;
 \*  - otherwise result and successor observation are those of the model.
-StepOK(pre, op, res, pn, post) ==
-  LET c == Abstract(pre)
-      r == Apply(c, op)
-  IN IF r.res.st = "panic" THEN pn
-     ELSE ~pn /\ res = r.res /\ post = Project(r.ctx)
+\* Verdict: "ok", or which part differs.
+\* (coh = Coherent(pre), c = Abstract(pre), passed in so that they are
+\* computed once for all the steps taken from the same pre-state)
+VerdictC(coh, c, op, res, pn, post) ==
+  IF ~coh THEN "pre"
+  ELSE LET r == Apply(c, op)
+       IN IF r.res.st = "panic" THEN (IF pn THEN "ok" ELSE "nopanic")
+          ELSE IF pn THEN "panic"
+          ELSE IF res # ResStr(r.res) THEN "res"
+          ELSE IF post # Project(r.ctx) THEN "post"
+          ELSE "ok"
+Verdict(pre, op, res, pn, post) == VerdictC(Coherent(pre), Abstract(pre), op, res, pn, post)
 
 -----------------------------------------------------------------------------
 \* The model as a state machine (bounded alphabet), for TLC
@@ -298,7 +329,7 @@ TypeOK ==
 \* The invariants of the property, on the reference model
 
 \* projection and reconstruction are inverse up to observational equivalence
-ProjectionFaithful == Project(Abstract(Project(ctx))) = Project(ctx)
+ProjectionFaithful == Coherent(Project(ctx))
 
 \* the environment is exactly the exported visible variables with their values
 EnvExact ==
